@@ -8,7 +8,7 @@
 // pinned tree (deflated_solver, relaxation::ilut); the main unit never instantiates those.
 #include "c14_params.hpp"
 
-#ifdef C14_PART_SERIAL
+#if defined(C14_PART_SERIAL) || defined(C14_PART_MPI)
 #include <amgcl/backend/builtin.hpp>
 #include <amgcl/amg.hpp>
 #include <amgcl/make_solver.hpp>
@@ -22,11 +22,6 @@
 #include <amgcl/preconditioner/schur_pressure_correction.hpp>
 #endif
 #ifdef C14_PART_MPI
-#include <amgcl/backend/builtin.hpp>
-#include <amgcl/amg.hpp>
-#include <amgcl/solver/cg.hpp>
-#include <amgcl/coarsening/smoothed_aggregation.hpp>
-#include <amgcl/relaxation/spai0.hpp>
 #include <amgcl/mpi/amg.hpp>
 #include <amgcl/mpi/make_solver.hpp>
 #include <amgcl/mpi/coarsening/aggregation.hpp>
